@@ -59,6 +59,35 @@ func (x *vc) call(fr *frame, st *state, in ssa.CallInstruction, pos string) Val 
 			x.assume(st.guard, implies(r.T, and(not(eq(kd, "19")), not(eq(kd, "21")), not(eq(kd, "23")))))
 			return r
 		}
+		if strings.HasPrefix(cc.Method.FullName(), "(reflect.Type).") {
+			// reflect.Type descriptors are immutable and their methods pure: no heap effect. Documented panic conditions
+			// of the methods used in the repository are obligations.
+			x.needDecl("(declare-fun rtype_id (Iface) Int)")
+			x.needDecl("(declare-fun rt_numfield (Int) Int)")
+			x.trusted["reflect.Type methods are pure (type descriptors are immutable); Field/NumField require a struct type and an in-range index (documented)"] = true
+			id := app("rtype_id", recv.T)
+			kd := app("kind_of_type", id)
+			switch cc.Method.Name() {
+			case "NumField":
+				x.check(st, "rt:NumField", "", eq(kd, "25"), pos, "reflect.Type.NumField: the type must be a struct type")
+				r := x.freshVal("rtnumfield", resT, st)
+				x.assume(st.guard, and(app("<=", "0", r.T), eq(r.T, app("rt_numfield", id))))
+				return r
+			case "Field":
+				x.check(st, "rt:Field", "", and(eq(kd, "25"), app("<=", "0", args[0].T), app("<", args[0].T, app("rt_numfield", id))), pos, "reflect.Type.Field: the type must be a struct type and the index in range")
+			case "Elem":
+				x.check(st, "rt:Elem", "", or(eq(kd, "17"), eq(kd, "18"), eq(kd, "21"), eq(kd, "22"), eq(kd, "23")), pos, "reflect.Type.Elem: the type must be an array, channel, map, pointer or slice type")
+			case "Key":
+				x.check(st, "rt:Key", "", eq(kd, "21"), pos, "reflect.Type.Key: the type must be a map type")
+			case "In", "Out", "NumIn", "NumOut", "IsVariadic":
+				x.check(st, "rt:"+cc.Method.Name(), "", eq(kd, "19"), pos, "reflect.Type."+cc.Method.Name()+": the type must be a function type (index range: not modelled)")
+			}
+			r := x.freshResult(st, resT, "rt_"+cc.Method.Name())
+			if _, isIface := resT.Underlying().(*types.Interface); isIface && r.T != "" {
+				x.assume(st.guard, not(eq(app("itag", r.T), "0")))
+			}
+			return r
+		}
 		x.havocCall(st, resT, "interface method "+cc.Method.FullName(), true)
 		return x.freshResult(st, resT, "invoke_"+cc.Method.Name())
 	}
@@ -95,8 +124,41 @@ func (x *vc) call(fr *frame, st *state, in ssa.CallInstruction, pos string) Val 
 		if fv.T != "" {
 			x.check(st, "nil", "funcvalue", not(eq(fv.T, "0")), pos, "call of nil function value")
 		}
+		// a function variable assigned one of several repository functions under contract (var f func(..); switch { case
+		// ..: f = g; case ..: f = h }; f(..)): the preconditions of each candidate are obligations in the case that it is
+		// the one called, and its postconditions on the results are known in that case. The heap is havocked as for
+		// any dynamic call.
+		cands := x.phiFuncCandidates(cc.Value)
+		var candRes []Val
+		if fv.T != "" {
+			for _, f := range cands {
+				fc := x.p.cons.get(fnKey(f))
+				st2 := st.clone()
+				st2.guard = and(st.guard, eq(fv.T, x.value(fr, st, f).T))
+				x.calleesByContract[fnKey(f)] = true
+				var names []string
+				for _, p := range f.Params {
+					names = append(names, p.Name())
+				}
+				r := x.applyContract(fr, st2, fc, f, f.Signature, args, names, pos, shortFn(f), resT)
+				candRes = append(candRes, r)
+			}
+		}
 		x.havocCall(st, resT, "dynamic call", true)
-		return x.freshResult(st, resT, "dyncall")
+		res := x.freshResult(st, resT, "dyncall")
+		for i, f := range cands {
+			if i >= len(candRes) {
+				break
+			}
+			g := and(st.guard, eq(fv.T, x.value(fr, st, f).T))
+			a, b := append([]Val{res}, res.Tuple...), append([]Val{candRes[i]}, candRes[i].Tuple...)
+			for k := range a {
+				if k < len(b) && a[k].T != "" && b[k].T != "" {
+					x.assume(g, eq(a[k].T, b[k].T))
+				}
+			}
+		}
+		return res
 	}
 	return x.callStatic(fr, st, callee, binds, args, resT, pos)
 }
@@ -306,6 +368,10 @@ func (x *vc) applyContract(fr *frame, st *state, fc *funcContract, callee *ssa.F
 			b := x.pendingBinds[i]
 			if _, isPtr := fv.Type().Underlying().(*types.Pointer); isPtr && b.T != "" {
 				env.vars[fv.Name()] = x.load(st, b)
+				if env.fvCells == nil {
+					env.fvCells = map[string]Val{}
+				}
+				env.fvCells[fv.Name()] = b // read in the state of evaluation: the pre-state in requires and old(..), the post-state in ensures
 			} else {
 				env.vars[fv.Name()] = b
 			}
@@ -413,7 +479,7 @@ func (x *vc) applyContract(fr *frame, st *state, fc *funcContract, callee *ssa.F
 		return x.freshResult(st, resT, "noret")
 	}
 	res := x.freshResult(st, resT, "r_"+mangle(what))
-	post := &cenv{x: x, vars: map[string]Val{}, st: st, old: pre, pkg: env.pkg}
+	post := &cenv{x: x, vars: map[string]Val{}, st: st, old: pre, pkg: env.pkg, fvCells: env.fvCells}
 	for k, v := range env.vars {
 		post.vars[k] = v
 	}
@@ -801,7 +867,7 @@ func (x *vc) stdlibModel(fr *frame, st *state, callee *ssa.Function, args []Val,
 	case "unicode/utf8.RuneLen":
 		r := args[0].T
 		return Val{T: ite(app("<", r, "0"), "(- 1)", ite(app("<", r, "128"), "1", ite(app("<", r, "2048"), "2", ite(and(app("<=", "55296", r), app("<=", r, "57343")), "(- 1)", ite(app("<", r, "65536"), "3", ite(app("<=", r, "1114111"), "4", "(- 1)")))))), Typ: resT}, true
-	case "strings.Index", "strings.IndexByte", "strings.IndexRune", "strings.LastIndex", "strings.IndexAny":
+	case "strings.Index", "strings.IndexByte", "strings.IndexRune", "strings.LastIndex", "strings.IndexAny", "strings.LastIndexByte", "strings.LastIndexAny":
 		r := x.freshVal("index", intT, st)
 		if name == "strings.Index" || name == "strings.LastIndex" {
 			x.assume(st.guard, and(app("<=", "(- 1)", r.T), implies(app(">=", r.T, "0"), app("<=", app("+", r.T, app("slen", args[1].T)), app("slen", args[0].T)))))
@@ -846,6 +912,21 @@ func (x *vc) stdlibModel(fr *frame, st *state, callee *ssa.Function, args []Val,
 				r.T, q, el("(* 2 j)"), el("(+ (* 2 j) 1)"), el("(* 2 j)"), el("(* 2 j)"), el("(+ (* 2 j) 1)"), el("(+ (* 2 j) 1)"), s, el("(* 2 j)")))
 		}
 		return r, true
+	case "net/url.Parse", "net/url.ParseRequestURI", "regexp.Compile", "time.LoadLocation":
+		// documented constructors returning (*T, error): the pointer is non-nil when the error is nil
+		r := x.freshResult(st, resT, "ctor")
+		if len(r.Tuple) == 2 && r.Tuple[0].T != "" && r.Tuple[1].T != "" {
+			x.trusted["library constructors (url.Parse, regexp.Compile, time.LoadLocation): non-nil result when the error is nil"] = true
+			x.assume(st.guard, implies(eq(app("itag", r.Tuple[1].T), "0"), not(eq(r.Tuple[0].T, "0"))))
+			x.assume(st.guard, implies(not(eq(app("itag", r.Tuple[1].T), "0")), not(eq(app("ival", r.Tuple[1].T), "0"))))
+		}
+		return r, true
+	case "math/rand.Intn", "math/rand.Int63n", "math/rand.Int31n":
+		// documented: panics if n <= 0; the result is in [0, n)
+		x.check(st, "lib:rand.Intn", "", app(">", args[0].T, "0"), pos, name+": the argument must be positive (panics otherwise)")
+		r := x.freshResult(st, resT, "randn")
+		x.assume(st.guard, and(app("<=", "0", r.T), app("<", r.T, args[0].T)))
+		return r, true
 	case "strings.Split", "strings.SplitN", "strings.Fields":
 		r := x.freshVal("split", resT, st)
 		x.assume(st.guard, app(">", app("sl_arr", r.T), "0"))
@@ -858,6 +939,29 @@ func (x *vc) stdlibModel(fr *frame, st *state, callee *ssa.Function, args []Val,
 		hi := map[string]string{"(time.Time).Nanosecond": "999999999", "(time.Time).Hour": "23", "(time.Time).Minute": "59", "(time.Time).Second": "59"}[name]
 		x.trusted["package time: clock fields lie in their documented ranges"] = true
 		x.assume(st.guard, and(app("<=", "0", r.T), app("<=", r.T, hi)))
+		return r, true
+	case "(time.Time).Month", "(time.Time).Day", "(time.Time).YearDay", "(time.Time).Weekday":
+		// documented ranges of the calendar fields
+		r := x.freshResult(st, resT, "datefield")
+		rng := map[string][2]string{"(time.Time).Month": {"1", "12"}, "(time.Time).Day": {"1", "31"}, "(time.Time).YearDay": {"1", "366"}, "(time.Time).Weekday": {"0", "6"}}[name]
+		x.trusted["package time: calendar fields lie in their documented ranges (Month 1..12, Day 1..31, YearDay 1..366, Weekday 0..6, ISO week 1..53, zone offset within a day)"] = true
+		x.assume(st.guard, and(app("<=", rng[0], r.T), app("<=", r.T, rng[1])))
+		return r, true
+	case "(time.Time).ISOWeek":
+		r := x.freshResult(st, resT, "isoweek")
+		if len(r.Tuple) == 2 {
+			x.trusted["package time: calendar fields lie in their documented ranges (Month 1..12, Day 1..31, YearDay 1..366, Weekday 0..6, ISO week 1..53, zone offset within a day)"] = true
+			x.assume(st.guard, and(app("<=", "1", r.Tuple[1].T), app("<=", r.Tuple[1].T, "53")))
+		}
+		return r, true
+	case "(time.Time).Zone":
+		// the offset is what FixedZone / the zone database holds: seconds east of UTC, an int; zone databases and
+		// parseTimeZone (at most 99:99) stay far inside +-2^31
+		r := x.freshResult(st, resT, "zone")
+		if len(r.Tuple) == 2 {
+			x.trusted["package time: zone offsets are 32-bit quantities (the zone database format and FixedZone callers in the repository)"] = true
+			x.assume(st.guard, and(app("<", "(- 2147483648)", r.Tuple[1].T), app("<", r.Tuple[1].T, "2147483648")))
+		}
 		return r, true
 	case "(time.Time).UnixNano":
 		// documented: "The result is undefined if the Unix time in nanoseconds cannot be represented by an int64 (a date
